@@ -6,6 +6,7 @@ import (
 	"fmt"
 	"reflect"
 
+	"github.com/ovn-org/libovsdb/mapper"
 	"github.com/ovn-org/libovsdb/model"
 	"github.com/ovn-org/libovsdb/ovsdb"
 	"github.com/ovn-org/libovsdb/updates"
@@ -206,6 +207,85 @@ func runC10(r *ev.Run) {
 						}
 					}
 				}()
+				// --- whole-row variant: the update names every filler column with the value it already has (a client writing
+				// a model back), through AddOperation and through a v1 row update (old and new complete rows)
+				if cn != "s" && cn != "ss" && cn != "mss" {
+					func() {
+						defer func() {
+							if p := recover(); p != nil {
+								r.Violation("c10.whole-row.panic."+shapeClass(c), fmt.Sprintf("%s (%s): a=%s b=%s: panic %v", cn, shape, a, b, p), cse)
+							}
+						}()
+						fill := ovsdb.Row{"s": "filler", "ss": sys.ToOvs(e.t.Cols["ss"], rm.SetOf(rm.S("f1"), rm.S("f2"))), "mss": sys.ToOvs(e.t.Cols["mss"], rm.MapOf(rm.S("fk"), rm.S("fv")))}
+						checkNew := func(path string, nm model.Model, ref model.Model) {
+							if nm == nil {
+								if !equal {
+									r.Violation("c10.whole-row.lost."+path+"."+shapeClass(c), fmt.Sprintf("%s (%s): a=%s b=%s: %s recorded no update", cn, shape, a, b, path), cse)
+								}
+								return
+							}
+							if !colValue(c, nm).Equal(b.canon()) {
+								r.Violation("c10.whole-row.new-model."+path+"."+shapeClass(c), fmt.Sprintf("%s (%s): a=%s b=%s: %s: new model holds %s", cn, shape, a, b, path, colValue(c, nm)), cse)
+							}
+							for _, oc := range []string{"s", "ss", "mss"} {
+								if !colValue(e.t.Cols[oc], nm).Equal(colValue(e.t.Cols[oc], ref)) {
+									r.Violation("c10.whole-row.unchanged-column-damaged."+path+"."+colShape(e.t.Cols[oc]), fmt.Sprintf("%s (%s): a=%s b=%s: %s with column %s named at its current value: new model holds %s=%s", cn, shape, a, b, path, oc, oc, colValue(e.t.Cols[oc], nm)), cse)
+								}
+							}
+						}
+						r.Add("whole_row_evaluations", 1)
+						A3 := e.mkModel(uuid, cn, a)
+						snapA3 := snapshot(A3)
+						row := ovsdb.Row{cn: b.ovs(c)}
+						for k, v := range fill {
+							row[k] = v
+						}
+						var opW ovsdb.Operation
+						if err := jsonRoundTrip(ovsdb.Operation{Op: "update", Table: "T", Row: row}, &opW); err != nil {
+							panic(err)
+						}
+						mu3 := updates.ModelUpdates{}
+						if err := mu3.AddOperation(e.dbm, "T", uuid, A3, &opW); err != nil {
+							r.Violation("c10.whole-row.diff-error."+shapeClass(c), fmt.Sprintf("%s (%s): a=%s b=%s: AddOperation(whole row): %v", cn, shape, a, b, err), cse)
+							return
+						}
+						if s := snapshot(A3); s != snapA3 {
+							r.Violation("c10.whole-row.diff-mutates-model."+shapeClass(c), fmt.Sprintf("%s (%s): a=%s b=%s: the whole-row update changed the model it was computed from: %s -> %s", cn, shape, a, b, snapA3, s), cse)
+						}
+						checkNew("AddOperation", mu3.GetModel("T", uuid), e.mkModel(uuid, cn, a))
+						if mod, found := modifyOf(mu3, "T", uuid); found && mod != nil {
+							for k := range *mod {
+								if k != cn {
+									r.Violation("c10.whole-row.diff-extra-column."+shapeClass(c), fmt.Sprintf("%s: a=%s b=%s: modify of a whole-row update carries unchanged column %s", cn, a, b, k), cse)
+								}
+							}
+						}
+						// v1: old = complete row a, new = complete row b
+						A4 := e.mkModel(uuid, cn, a)
+						B4 := e.mkModel(uuid, cn, b)
+						oldRow, err1 := e.dbm.Mapper.NewRow(mustInfo(e.dbm, A4))
+						newRow, err2 := e.dbm.Mapper.NewRow(mustInfo(e.dbm, B4))
+						if err1 != nil || err2 != nil {
+							return
+						}
+						var ow, nw ovsdb.Row
+						if jsonRoundTrip(oldRow, &ow) != nil || jsonRoundTrip(newRow, &nw) != nil {
+							return
+						}
+						delete(ow, "_uuid")
+						delete(nw, "_uuid")
+						snapA4 := snapshot(A4)
+						mu4 := updates.ModelUpdates{}
+						if err := mu4.AddRowUpdate(e.dbm, "T", uuid, A4, ovsdb.RowUpdate{Old: &ow, New: &nw}); err != nil {
+							r.Violation("c10.whole-row.v1-error."+shapeClass(c), fmt.Sprintf("%s (%s): a=%s b=%s: AddRowUpdate: %v", cn, shape, a, b, err), cse)
+							return
+						}
+						if s := snapshot(A4); s != snapA4 {
+							r.Violation("c10.whole-row.v1-mutates-model."+shapeClass(c), fmt.Sprintf("%s (%s): a=%s b=%s: applying a v1 update changed the old model: %s -> %s", cn, shape, a, b, snapA4, s), cse)
+						}
+						checkNew("AddRowUpdate", mu4.GetModel("T", uuid), B4)
+					}()
+				}
 				// --- peer rule: value a, arbitrary difference b
 				func() {
 					defer func() {
@@ -249,4 +329,12 @@ func runC10(r *ev.Run) {
 	r.Set("distinct_nontrivial", r.DistinctCount("nontrivial"))
 	r.Set("columns", len(cols))
 	_ = sys.ToOvs
+}
+
+func mustInfo(dbm model.DatabaseModel, m model.Model) *mapper.Info {
+	info, err := dbm.NewModelInfo(m)
+	if err != nil {
+		panic(err)
+	}
+	return info
 }
